@@ -29,7 +29,7 @@ ASSUMPTIONS = [
     "ACL patterns never split the rows of one rulebook (rule,key): they are the rulebook's patterns, widened (*, truncation + ~) or narrowed to one key",
     "rulebook logics emit only the row or its negation (default, undo_redo, ordered)",
 ]
-FLOORS = {"quick": {"patches_checked": 2000, "commands_checked": 3000, "uncovered_rows_checked": 3000, "cant_delete_rows_checked": 150, "composition_checked": 2000, "front_runs_with_acl": 300, "front_runs_empty_acl": 10},
+FLOORS = {"quick": {"patches_checked": 2000, "commands_checked": 3000, "uncovered_rows_checked": 3000, "cant_delete_rows_checked": 150, "composition_checked": 2000, "front_runs_with_acl": 300, "front_runs_empty_acl": 10, "front_runs_acl_safe": 150},
           "thorough": {"patches_checked": 60000, "commands_checked": 90000, "uncovered_rows_checked": 90000, "cant_delete_rows_checked": 4000, "composition_checked": 60000}}
 VENDORS = c01.BLOCK_VENDORS
 
@@ -252,8 +252,9 @@ def judge_patch(acc, w, vname, U, old, paths, al, ag, tag=""):
     return acc.counters.get("uncovered_rows_checked", 0) - before
 
 
-def check_front(seed, acc):
-    """the same safety clauses through the production front end _old_new_per_device (generators -> combined ACL -> old/new -> patch)"""
+def check_front(seed, acc, safe=False):
+    """the same safety clauses through the production front end _old_new_per_device (generators -> combined ACL -> old/new -> patch);
+    safe=True: the --acl-safe mode, where only the generators' acl_safe texts make up the ACL the patch is confined to"""
     from annet.api import _diff_and_patch
     from annet.generators import GeneratorError
     from vf import harness_gen as H
@@ -275,17 +276,24 @@ def check_front(seed, acc):
         text = A.render(a)
         l, g = A.compile_level(a, ideal=False)
         out = A.filter_tree(plain(mutated), l, g, prefix, "winner")
-        gens.append(H.make_partial("Gen%d" % i, vname, text, H.tree_runner(out), supported=supported))
-        if supported and text.strip():
+        safe_text = None
+        if safe and rng.random() < 0.6:
+            a_s = [r for r in a if rng.random() < 0.6]
+            safe_text = A.render(a_s)
+        gens.append(H.make_partial("Gen%d" % i, vname, text, H.tree_runner(out), supported=supported, acl_safe_text=safe_text))
+        if safe:
+            if supported and safe_text and safe_text.strip():
+                ref_acl += GA.tag_generator(a_s, "Gen%d" % i)
+        elif supported and text.strip():
             ref_acl += GA.tag_generator(a, "Gen%d" % i)
     rtext = RB.render(U)
-    w = {"front": True, "seed": seed, "vendor": vname, "rulebook": rtext, "old": plain(old),
+    w = {"front": True, "safe": safe, "seed": seed, "vendor": vname, "rulebook": rtext, "old": plain(old),
          "generators": [{"name": type(g_).__name__, "supported": bool(g_.supports_device(H.FakeDevice(hw)))} for g_ in gens],
          "acl": A.render(ref_acl)}
     device = H.FakeDevice(hw)
     try:
         rb = c01.compile_rb(rtext, vname)
-        res = H.old_new(device, gens, fmt.join(old), no_acl_exclusive=True)
+        res = H.old_new(device, gens, fmt.join(old), no_acl_exclusive=True, acl_safe=safe)
     except GeneratorError:
         acc.count("front_skipped_generator_error")
         return None
@@ -296,7 +304,7 @@ def check_front(seed, acc):
         acc.violation("C02/front-error/%s" % type(res.err).__name__, "_old_new_per_device returned an error", dict(w, error=repr(res.err)[:300]))
         return None
     try:
-        diff, patch = _diff_and_patch(device, res.old, res.new, res.acl_rules, res.filter_acl_rules, False, rb=rb)
+        diff, patch = _diff_and_patch(device, res.get_old(safe), res.get_new(safe), res.get_acl_rules(safe), res.filter_acl_rules, False, rb=rb)
         paths = [tuple(p) for p in fmt.cmd_paths(patch)]
     except Exception as e:
         acc.violation("C02/front-exception/%s" % type(e).__name__, "_diff_and_patch raised on the front end's result", dict(w, error=repr(e)[:300]))
@@ -304,6 +312,8 @@ def check_front(seed, acc):
     w["commands"] = [list(p) for p in paths]
     acc.count("front_runs")
     acc.count("front_runs_empty_acl" if not ref_acl else "front_runs_with_acl")
+    if safe:
+        acc.count("front_runs_acl_safe")
     al, ag = A.compile_level(ref_acl, ideal=True)
     unc = judge_patch(acc, w, vname, U, old, paths, al, ag, tag="")
     acc.case(["front", vname, rtext, w["acl"], w["old"], w["commands"]], nontrivial=bool(unc and paths))
@@ -313,7 +323,7 @@ def check_front(seed, acc):
 def run_shard(spec, acc):
     if spec["mode"] == "replay":
         if spec["witness"].get("front"):
-            check_front(spec["witness"]["seed"], acc)
+            check_front(spec["witness"]["seed"], acc, safe=bool(spec["witness"].get("safe")))
         else:
             check_case(spec["witness"]["seed"], acc)
         return
@@ -326,3 +336,5 @@ def run_shard(spec, acc):
             acc.sample({k2: w[k2] for k2 in ("vendor", "rulebook", "acl", "old", "new", "commands")})
         if j % 3 == 0:
             check_front(rng.randrange(1 << 48), acc)
+        if j % 6 == 1:
+            check_front(rng.randrange(1 << 48), acc, safe=True)
